@@ -63,7 +63,7 @@ WReqs ==
   { Q("read", t, m, i, n, 0, "INT", <<>>, <<>>) : t \in {1, 3}, m \in {"sym", "cia"}, i \in {0 - 1, 0, 3}, n \in {1, 2, 5} } \cup
   { Q("readf", 1, m, 0, 4, off, "INT", <<>>, <<>>) : m \in {"sym", "cia"}, off \in {0, 2, 6, 8} } \cup
   { Q("write", 1, "sym", i, k, 0, ty, [ j \in 1 .. k |-> BVals(ty)[j + 1] ], <<>>) :
-       i \in {0, 2}, ty \in {"INT", "SINT", "DINT", "UINT", "LINT", "USINT"}, k \in {1, 2} } \cup
+       i \in {0, 2}, ty \in (AllTypes \ {"BOOL"}), k \in {1, 2} } \cup
   { Q("write", 3, "sym", 0, Len(vs), 0, "SSTRING", vs, <<>>) : vs \in { << <<97>> >>, << <<97, 98>>, <<>> >> } } \cup
   { Q("write", 2, "cia", 0 - 1, 1, 0, "REAL", << <<0, 0, 128, 63>> >>, <<>>) } \cup
   { Q("writef", 1, "sym", 0, 4, off, "INT", vs, <<>>) : off \in {0, 4}, vs \in { << <<1, 0>> >>, << <<1, 0>>, <<2, 0>> >> } } \cup
@@ -121,12 +121,32 @@ FrameDomain ==
        msg \in { EncReq(WCfg, Q("read", 1, "sym", 0, 1, 0, "INT", <<>>, <<>>)) } }
 EmitFrame(f) == PrintT(ToJson([k |-> "frame", f |-> f, b |-> EncEnip(f.cmd, f.sess, f.status, f.ctx, f.options, f.payload)]))
 
+\* Connection Manager: sizes on both sides of the small/large boundary (511/512), all flag bits, id boundaries
+Side(id, rpi, size, variable, priority, type, redundant) ==
+  [id |-> id, rpi |-> rpi, size |-> size, variable |-> variable, priority |-> priority, type |-> type, redundant |-> redundant]
+IdPool == { <<1, 0, 0, 0>>, <<255, 255, 255, 255>>, <<0, 0, 0, 128>> }
+Sizes == {1, 510, 511, 512, 4000, 65535}
+CPaths == { << [k |-> "port", p |-> 1, l |-> 0], [k |-> "class", v |-> 2], [k |-> "inst", v |-> 1] >>,
+            << [k |-> "class", v |-> 2], [k |-> "inst", v |-> 1] >>,
+            << [k |-> "porta", p |-> 2, a |-> <<49, 46, 50, 46, 51, 46, 52>>], [k |-> "port", p |-> 1, l |-> 0], [k |-> "class", v |-> 2], [k |-> "inst", v |-> 1] >> }
+FODomain ==
+  { [prio |-> 5, ticks |-> 157, ot |-> Side(i1, <<64, 66, 15, 0>>, s1, v1, p1, t1, r1), to |-> Side(i2, <<255, 255, 255, 127>>, s2, 1, 0, 2, 0),
+     serial |-> ser, vendor |-> 4919, oserial |-> <<120, 86, 52, 18>>, mult |-> 1, trigger |-> 163, cpath |-> cp] :
+       i1 \in IdPool, i2 \in {<<2, 0, 0, 0>>}, s1 \in Sizes, s2 \in Sizes, v1 \in {0, 1}, p1 \in {0, 3}, t1 \in {0, 2, 3}, r1 \in {0, 1},
+       ser \in {1, 65535}, cp \in CPaths }
+FOSmall == { f \in FODomain : (f.ot.variable = 1 /\ f.ot.priority = 0 /\ f.ot.type = 2 /\ f.ot.redundant = 0 /\ f.serial = 1 /\ f.ot.id = <<1, 0, 0, 0>>)
+                               \/ (f.ot.size = 510 /\ f.to.size = 510 /\ f.cpath = << [k |-> "class", v |-> 2], [k |-> "inst", v |-> 1] >>) }
+EmitFO(f) == PrintT(ToJson([k |-> "fwd", f |-> f, large |-> IsLargeFO(f.ot, f.to), b |-> EncForwardOpen(f),
+                            rpy |-> EncForwardOpenReply(f, <<64, 66, 15, 0>>, <<128, 132, 30, 0>>), fail |-> EncForwardOpenFail(f, 1, <<256>>),
+                            close |-> EncForwardClose(f), closerpy |-> EncForwardCloseReply(f)]))
+
 ASSUME CASE Which = "epath"  -> \A p \in Paths : EmitEPath(p)
          [] Which = "status" -> \A x \in StatusDomain : EmitStatus(x)
          [] Which = "typed"  -> \A x \in TypedDomain : EmitTyped(x)
          [] Which = "logix"  -> (\A r \in WReqs : EmitLogix(r)) /\ (\A ms \in Bundles : EmitBundleW(ms))
          [] Which = "ucsend" -> \A x \in UCDomain : EmitUC(x)
          [] Which = "frames" -> \A f \in FrameDomain : EmitFrame(f)
+         [] Which = "fwd" -> \A f \in (IF Deep THEN FODomain ELSE FOSmall) : EmitFO(f)
 
 VARIABLE dummy
 WInit == dummy = 0
